@@ -59,7 +59,7 @@ out += ['', '### 8.4 Seeded changes (independent sub-agents) and which checks ca
         'C10-3, C14-3, C19-3), five of the twenty round-3 changes (C04-4, C10-4, C13-4, C15-4, C19-4) and ten of the twenty',
         'round-4 changes (<id>-5), ten of the twenty round-5 changes (<id>-6) eleven of the twenty round-6 changes (<id>-7) eight of the twenty round-7 changes (<id>-8) eight of the twenty round-8 changes (<id>-9) ten of the twenty round-9 changes (<id>-10) eight of the twenty round-10 changes (<id>-11) three of the twenty round-11 changes (<id>-12) nine of the twenty round-12 changes (<id>-13) three of the round-13 changes (<id>-14) six of the twenty round-14 changes (<id>-15) and twelve of the twenty round-15 changes (<id>-16, one of them not a violation of the property as stated) four of the twenty round-16 changes (<id>-17) three of the twenty round-17 changes (<id>-18, one of them outside the documented input domain) and six of the round-18 changes (<id>-19) (shared helpers, optional arguments, call',
         'order, data-dependent corners, flavour-specific paths, copy semantics; tables at the end of 8.2) escaped the checks as they were; each miss was an input class the generators did not produce, the generators',
-        'were widened, and all %d changes are now caught by the quick tier.  Each change was confirmed' % len(rows),
+        'were widened, and all %d changes that still break a property as stated are now caught by the quick tier (the other %d are marked SUPERSEDED in the table: repaired away by a `fix:` commit, outside the documented domain, or themselves the repair of a known finding).  Each change was confirmed' % (len(rows) - sum(1 for r_ in rows if 'SUPERSEDED' in r_), sum(1 for r_ in rows if 'SUPERSEDED' in r_)),
         '(`tools/ingest_seed.py`: applies, the 37 pinned tests',
         'still pass, the agent\'s demonstration fails with the change and passes without) and is kept under',
         '`/verif/seeded/<id>-<n>/` (patch.diff, demo.py, meta.json).  %d patches (%s) had to be re-expressed by hand' % (len(rebased), ', '.join(rebased)),
